@@ -17,5 +17,7 @@ def run(ctx):
     r = ctx.run
     r.explanation = EXPLANATION
     pm.run_all(ctx)
+    from . import c16
+    c16.tree_contracts(r, ctx.lib)
     c15.check_merge(r, ctx.lib)
     r.assume("conformance to today's mechanism: the rules are the frozen, hand-confirmed instance table of DESIGN.md section 4 (PM1-PM16)")
